@@ -46,6 +46,8 @@ MKBOOK = ('<?xml version="1.0"?><D:mkcol xmlns:D="DAV:" xmlns:CR="urn:ietf:param
           '<D:set><D:prop><D:resourcetype><D:collection/><CR:addressbook/></D:resourcetype></D:prop></D:set></D:mkcol>')
 PROPPATCH = ('<?xml version="1.0"?><D:propertyupdate xmlns:D="DAV:"><D:set><D:prop><D:displayname>%s</D:displayname>'
              '</D:prop></D:set></D:propertyupdate>')
+PROPPATCH_REMOVE = ('<?xml version="1.0"?><D:propertyupdate xmlns:D="DAV:"><D:remove><D:prop><D:displayname/>'
+                    '</D:prop></D:remove></D:propertyupdate>')
 L = "user:"
 
 
@@ -78,6 +80,10 @@ def build_shape(shape, lay, base):
     assert rq("MKCALENDAR", "/user/plain/sub/", login=L)[0] == 201
     assert rq("MKCOL", "/user/plain/bare/", login=L)[0] == 201
     assert rq("PUT", "/user/plain/sub/g1.ics", data=EV("g1"), login=L)[0] == 201
+    # untagged collections with exactly one property (PROPPATCH that removes the last property); a second principal
+    assert rq("PROPPATCH", "/user/plain/", data=PROPPATCH % "plain", login=L)[0] == 207
+    assert rq("PROPFIND", "/user2/", login="user2:", HTTP_DEPTH="0")[0] == 207
+    assert rq("PROPPATCH", "/user2/", data=PROPPATCH % "second", login="user2:")[0] == 207
     if shape in ("residue",):
         # a deleted item leaves a history entry; make it (and one more) look expired
         assert rq("PUT", "/user/cal/old1.ics", data=EV("old1"), login=L)[0] == 201
@@ -160,6 +166,10 @@ def op_requests():
         "move_cross_empty": dict(method="MOVE", path="/user/cal/e3.ics", login=L, headers=dict(H, HTTP_DESTINATION=D + "/user/empty/e3.ics"),
                                  kind="RMove", coll="user/cal", href="e3.ics", coll2="user/empty", href2="e3.ics"),
         "proppatch": dict(method="PROPPATCH", path="/user/cal/", data=PROPPATCH % "x", login=L, kind="RPropPatch", coll="user/cal"),
+        "proppatch_home_set": dict(method="PROPPATCH", path="/user/", data=PROPPATCH % "home", login=L, kind="RPropPatch", coll="user"),
+        "proppatch_plain_set": dict(method="PROPPATCH", path="/user/plain/bare/", data=PROPPATCH % "bare", login=L, kind="RPropPatch", coll="user/plain/bare"),
+        "proppatch_plain_remove_last": dict(method="PROPPATCH", path="/user/plain/", data=PROPPATCH_REMOVE, login=L, kind="RPropPatch", coll="user/plain"),
+        "proppatch_home_remove_last": dict(method="PROPPATCH", path="/user2/", data=PROPPATCH_REMOVE, login="user2:", kind="RPropPatch", coll="user2"),
         "mkcol": dict(method="MKCOL", path="/user/plain/col2/", login=L, kind="RMkcol", coll="user/plain/col2"),
         "mkcalendar": dict(method="MKCALENDAR", path="/user/mk/", login=L, kind="RMkcalendar", coll="user/mk"),
         "mkaddressbook": dict(method="MKCOL", path="/user/mkb/", data=MKBOOK, login=L, kind="RMkcalendar", coll="user/mkb"),
@@ -341,9 +351,11 @@ def unfaulted(base, shape, lay, opname):
                     pre_l.append((N(n), cid(coll + "/" + n + "/.Radicale.props")))
             req = dict(kind=kind, home=P(coll), predefined=pre_l)
     except (OSError, KeyError) as ex:
-        return dict(error="cannot derive model request: %r (status %s)" % (ex, out.get("status")),
-                    **{k: c[k] for k in ("shape", "lay", "opname")})
-    return dict(shape=shape, lay=lay, opname=opname, status=out.get("status"), request=req, pre_entries=pre_entries,
+        req = None
+        derive_error = "cannot derive the model request from what the server left behind: %r (status %s)" % (ex, out.get("status"))
+    else:
+        derive_error = None
+    return dict(shape=shape, lay=lay, opname=opname, status=out.get("status"), request=req, derive_error=derive_error, pre_entries=pre_entries,
                 post_entries=post_entries, steps=[(s["step"], s["ok"]) for s in steps],
                 sys=[[(x.name, x.ordinal) for x in s["sys"]] for s in steps], locks=[(x.name, x.ordinal) for x in locks],
                 pre_abs=pre_abs, post_abs=post_abs, names=names, contents=contents, case_dir=c["case_dir"], error=None,
@@ -389,6 +401,22 @@ def inject_run(job):
             res["miss"] = "expected %r in %r" % (job["expect_frag"], hit_line[:200])
     except OSError as ex:
         res["miss"] = repr(ex)
+    # ---- durability of the follow-up requests served by the same process (a fault must not switch syncing off)
+    if job.get("durable_followups") and out is not None and out.get("followups"):
+        try:
+            evs = trace.parse(tr)
+            nm2, ct2 = job["names"].copy(), job["contents"].copy()
+            X.tree_entries(folder, nm2, ct2)
+            fd = []
+            for i, (fu, st) in enumerate(zip(FOLLOWUPS, out["followups"])):
+                steps_i, _, _ = X.project(evs, folder, nm2, ct2, "fu%d" % i, "fu%d" % (i + 1))
+                ok_steps = [s_["step"] for s_ in steps_i if s_["ok"]]
+                v = X.durable_monitor(ok_steps) if st in SUCCESS else None
+                fd.append(dict(request="%s %s" % (fu["method"], fu["path"]), status=st, verdict=v,
+                               steps=[X.fmt_step(x) for x in ok_steps] if v else None))
+            res["followup_durability"] = fd
+        except Exception as ex:
+            res["followup_durability_error"] = repr(ex)
     # ---- the server process survived the failing call: it must go on serving (lock bookkeeping reset, nothing wedged)
     if mode != "crash" and out is not None:
         fu = out.get("followups")
